@@ -363,6 +363,31 @@ func c13Counts(p *core.Prog, r *core.Run, dec *ssa.Function) {
 
 func c13RData(p *core.Prog, r *core.Run, rb, drr, dht, dopt *ssa.Function, rbS string) {
 	lits := core.Closures(rb)
+	// the HTTPS/SVCB and OPT decoders succeed only at the end of the RDATA:
+	// whatever the encoder wrote (parameters of an alias-mode record, say) is
+	// read back, nothing is left behind unread
+	for _, dec := range []*ssa.Function{dht, dopt} {
+		if dec == nil {
+			continue
+		}
+		n := 0
+		for _, ret := range core.Returns(dec) {
+			if !lastResultNil(ret) {
+				continue
+			}
+			n++
+			atEnd := false
+			for _, f := range p.Facts(ret.Block()) {
+				if f.Op == "true" && f.L.Op == "call" && f.L.Name == "(cryptobyte.String).Empty" {
+					atEnd = true
+				}
+				if f.Op == "==" && f.R != nil && f.R.Name == "0" && f.L.Op == "call" && f.L.Name == "len" && strings.HasSuffix(f.L.Args[0].Val.Type().String(), "cryptobyte.String") {
+					atEnd = true
+				}
+			}
+			r.Check("C13.RDATA", fmt.Sprintf("%s:consumes-all#%d", p.FuncName(dec), n), atEnd, p.InstrPos(ret), "%s reports success only when its input is used up", p.FuncName(dec))
+		}
+	}
 	// A / AAAA: raw
 	nIP := 0
 	for _, s := range callSites(p, lits, `\(\*cryptobyte\.Builder\)\.AddBytes`) {
